@@ -17,7 +17,9 @@ PROP = {
                   "lines, a drawn subset biased to ends and aligned lines otherwise), a value in every gap, values "
                   "before the first and after the last are sought and the error class and the following reads are "
                   "compared with the model; a two-file reader (rotated + current; either may be missing or empty) "
-                  "runs drawn histories of SeekStart / seek / read / read-to-end. Every operation runs under a watchdog "
+                  "runs drawn histories of SeekStart / seek / read / read-to-end; a value between the last entry of the "
+                  "rotated file and the first of the current one must either be reported absent or leave the reader "
+                  "on the newest entry older than it, never in front of newer entries. Every operation runs under a watchdog "
                   "of 10 s CPU time and the probe count is bounded by 100. Exploration: no absence claim; the window-edge "
                   "arithmetic is covered by construction and the reached offsets are measured on the reader.",
     "level_note": "White-box: drives the unexported qLogFile/qLogReader and reads qLogFile.position/bufferStart for "
